@@ -88,7 +88,7 @@ def op_str(op):
     if k == 'unlock':
         return 'unlock@%d@%s@%s@%s' % (op[1], ohx(op[2]) if op[2] else '-', arr_str(op[3]), arr_str(op[4]))
     if k == 'espr':
-        return 'espr@%s' % b01(op[1])
+        return 'espr@%s' % ('b' if op[1] == 'b' else b01(op[1]))     # 'b' = bare `with client.suppress_positive_response:`
     if k == 'xspr':
         return 'xspr'
     if k == 'eovr':
@@ -196,7 +196,10 @@ def run_history(hcfg, ops, algo_fn=None):
                 outs.append('-')
                 tr.steps.append({'op': op, 'out': '-', 'before': None, 'after': None})
                 enter_idx = len(tr.steps) - 1
-                cm = client.suppress_positive_response(wait_nrc=op[1]) if k == 'espr' else client.payload_override(cl.modifier_of(op[1]))
+                if k == 'espr':
+                    cm = client.suppress_positive_response if op[1] == 'b' else client.suppress_positive_response(wait_nrc=op[1])
+                else:
+                    cm = client.payload_override(cl.modifier_of(op[1]))
                 try:
                     with cm:
                         tr.steps[enter_idx]['after'] = state_snapshot()
@@ -353,6 +356,9 @@ def rand_reply_schedule(rng, e, std, cfgp2=1024, kinds=None, p2=None):
         return [(t, bytes([0x7F, sid, 0x78])), (t + 7, bytes([0x7F, sid, 0x22]))], kind
     if kind == 'silence':
         return [], kind
+    if kind == 'pend_silence':
+        k = rng.randrange(1, 3)
+        return [(t + 10 * i, bytes([0x7F, sid, 0x78])) for i in range(k)], kind
     if kind == 'invalid':
         return [(t, rng.choice([b'', bytes([0x7F]), bytes([0x7F, sid]), b'\x00\x01']))], kind
     if kind == 'badecho':
@@ -379,7 +385,10 @@ def gen_history(rng, focus, nops, hcfg):
         r = rng.random()
         in_spr = 'spr' in stack
         if focus == 'spr' and r < 0.22 and 'spr' not in stack and len(stack) < 2:
-            ops.append(('espr', rng.random() < 0.5)); meta.append({}); stack.append('spr'); continue
+            had_wait_block = any(o[0] == 'espr' and o[1] is True for o in ops)
+            # a bare block right after a wait_nrc block is the interesting sequel: the flag must not carry over
+            w = 'b' if (had_wait_block and rng.random() < 0.5) else rng.choice([True, True, False, False, 'b'])
+            ops.append(('espr', w)); meta.append({}); stack.append('spr'); continue
         if focus in ('spr', 'residue') and r < 0.30 and 'ovr' not in stack and len(stack) < 2 and rng.random() < (0.5 if focus == 'spr' else 0.15):
             m = rng.choice(['i', 'a:ff', 'x:01', 'c:deadbeef', 'c:1101'])
             ops.append(('eovr', m)); meta.append({}); stack.append('ovr'); continue
@@ -418,7 +427,7 @@ def gen_history(rng, focus, nops, hcfg):
         if focus == 'timing' and e[0] != 'cs':
             kinds = ['good', 'good', 'pend_good', 'pend_good', 'silence', 'late', 'neg']
         if focus == 'spr' and in_spr:
-            kinds = ['good', 'good', 'silence', 'neg', 'pend_good', 'pend_neg', 'invalid', 'badecho']
+            kinds = ['good', 'good', 'silence', 'neg', 'pend_good', 'pend_neg', 'pend_silence', 'invalid', 'badecho']
         arr, kind = rand_reply_schedule(rng, e, std, hcfg.p2, kinds, p2)
         ops.append(('call', e, arr)); meta.append({'kind': kind, 'p2': p2})
     while stack:
